@@ -51,6 +51,7 @@ KSI_IMPLEMENT_REF(KSI_Signature);
 
 
 int KSI_Signature_appendAggregationChain(KSI_Signature *sig, KSI_AggregationHashChain *aggr) {
+	if (sig == NULL || sig->appendAggregationChain == NULL) return KSI_INVALID_ARGUMENT;
 	return sig->appendAggregationChain(sig, aggr);
 }
 
